@@ -357,6 +357,12 @@ def module_zoo(seed):
     z["GaussianMLPEnsemble"] = (lambda s: GaussianMLPEnsemble(3, False, 3, 2, [4], "relu", rngs=nnx.Rngs(s)), lambda m: m(x3))
     z["SALE"] = (lambda s: SALE(MLP(3, 4, [4], "elu", rngs=nnx.Rngs(s)), MLP(4 + 2, 4, [4], "elu", rngs=nnx.Rngs(s + 1))), lambda m: m(state=x3, action=a2))
     z["ModelBasedEncoder"] = (lambda s: ModelBasedEncoder(3, 2, 5, 4, 3, 4, [4], "elu", False, rngs=nnx.Rngs(s)), lambda m: m.encode_zs(x3))
+    # parameters of rank 0 (SAC's temperature: one scalar nnx.Param) and a stochastic head with non-Param variables
+    from rl_blox.algorithm.sac import EntropyCoefficient
+    from rl_blox.blox.function_approximator.policy_head import GaussianTanhPolicy
+
+    z["EntropyCoefficient"] = (lambda s: EntropyCoefficient(jnp.asarray(0.25 * ((s % 7) - 3), dtype=jnp.float32)), lambda m: m())
+    z["GaussianTanhPolicy"] = (lambda s: GaussianTanhPolicy(GaussianMLP(True, 3, 2, [4], "relu", rngs=nnx.Rngs(s)), box), lambda m: m(x3))
     return z
 
 
